@@ -152,6 +152,117 @@ def check_race(rep, repo, tier):
     rep.extra_cov = {'states': tot['states'], 'transitions': tot['transitions']}
 
 
+
+REF_FIELD_T = re.compile(r'struct (ubuf_mgr|uref_mgr|udict_mgr|umem_mgr|uclock|upump_mgr|uprobe|upipe|upipe_mgr|uref|ubuf|urequest) \*')
+RELEASE_FN = re.compile(r'(_release|_free)$')
+
+
+def check_container(rep, prog):
+    """a heap structure that is freed by the function that filled it gives back, through its own field (or the variable
+    the field was filled from), every counted reference it was given"""
+    rep.rule('R-container', 'a function that allocates a structure (malloc / calloc into a local X), stores a counted reference into X->F (a local variable or the '
+             'result of a _use / _alloc / _dup call; manager, clock, probe, pipe, uref, ubuf, request types) and later frees X: on every path from the store '
+             'to free(X) the reference is released through X->F or through that variable - unless free(X) sits on the arm where X->F was just found NULL. '
+             'The retry path of a lock-free insertion (uprobe_ubuf_mem_pool: the loser of the compare-exchange frees its element) is such a path: releasing '
+             'through another element there drops a reference the winner still counts on and keeps the loser\'s manager alive for ever')
+    n = 0
+    for uname, u in sorted(prog.units.items()):
+        for fn in sorted(u.funcs.values(), key=lambda f: f.name):
+            if not fn.blocks or not fn.inmain:
+                continue
+            frees = [x for _, _, x in fn.nodes() if x.get('k') == 'call' and x.get('fn') == 'free' and x.get('args')]
+            if not frees:
+                continue
+            ev = None
+            for fr in frees:
+                a = strip_all_casts(fn.resolve(fr['args'][0]))
+                if not (isinstance(a, dict) and a.get('k') == 'ref' and a.get('d') != 'param'):
+                    continue
+                X = a['n']
+
+                def from_malloc(e):
+                    return isinstance(e, dict) and any(z.get('k') == 'call' and z.get('fn') in ('malloc', 'calloc') for z in walk(e))
+                alloc = False
+                for _, _, y in fn.nodes():
+                    if is_assign(y) and isinstance(strip(y['lhs']), dict) and strip(y['lhs']).get('k') == 'ref' and strip(y['lhs']).get('n') == X and from_malloc(y['rhs']):
+                        alloc = True
+                    if y.get('k') == 'decl' and any(v['n'] == X and from_malloc(v.get('init')) for v in y.get('vars', [])):
+                        alloc = True
+                if not alloc:
+                    continue
+                ev = ev or pr.Events(fn)
+                for _, _, st in fn.nodes():
+                    if not is_assign(st) or st.get('op') != '=':
+                        continue
+                    l = strip(st['lhs'])
+                    if not (isinstance(l, dict) and l.get('k') == 'mem' and l.get('arrow')):
+                        continue
+                    b = strip_all_casts(fn.resolve(l['b']))
+                    if not (isinstance(b, dict) and b.get('k') == 'ref' and b.get('n') == X):
+                        continue
+                    if not REF_FIELD_T.search(str(l.get('t') or st.get('t') or '')):
+                        continue
+                    r = strip_all_casts(fn.resolve(st['rhs']))
+                    vname = r.get('n') if isinstance(r, dict) and r.get('k') == 'ref' else None
+                    iscall = isinstance(r, dict) and r.get('k') == 'call' and re.search(r'(_use|_alloc\w*|_dup)$', r.get('fn') or '')
+                    if not (vname or iscall):
+                        continue
+                    F = l['f']
+
+                    def field_of_x(e, F=F, X=X):
+                        e = strip_all_casts(fn.resolve(e)) if isinstance(e, dict) else e
+                        if isinstance(e, dict) and e.get('k') == 'mem' and e.get('f') == F:
+                            bb = strip_all_casts(fn.resolve(e['b']))
+                            return isinstance(bb, dict) and bb.get('k') == 'ref' and bb.get('n') == X
+                        return False
+
+                    def rel(n_, vname=vname):
+                        if n_.get('k') != 'call' or not RELEASE_FN.search(n_.get('fn') or '') or not n_.get('args'):
+                            return False
+                        for a_ in n_['args']:
+                            if field_of_x(a_):
+                                return True
+                            a0 = strip_all_casts(fn.resolve(a_))
+                            if vname and isinstance(a0, dict) and a0.get('k') == 'ref' and a0.get('n') == vname:
+                                return True
+                        return False
+                    pos = ev.find(lambda n_, st=st: n_ is st)
+                    fpos = ev.find(lambda n_, fr=fr: n_ is fr)
+                    if not pos or not fpos:
+                        continue
+                    hits, _ = ev.reach((pos[0][0], pos[0][1]), lambda n_, fr=fr: n_ is fr, rel)
+                    if hits and vname:
+                        # released through the variable after the structure is gone: just as good
+                        def rel_var(n_, vname=vname):
+                            if n_.get('k') != 'call' or not RELEASE_FN.search(n_.get('fn') or '') or not n_.get('args'):
+                                return False
+                            a0 = strip_all_casts(fn.resolve(n_['args'][0]))
+                            return isinstance(a0, dict) and a0.get('k') == 'ref' and a0.get('n') == vname
+                        _, ex = ev.reach((fpos[0][0], fpos[0][1]), lambda n_: False, rel_var)
+                        if not ex:
+                            hits = []
+                    if hits:
+                        # free(X) on the arm where X->F was found NULL: nothing to give back
+                        def nulltest(ctree, pol):
+                            c, neg = strip_expect(fn.resolve(ctree))
+                            if isinstance(c, dict) and c.get('k') == 'bin' and c.get('op') in ('==', '!='):
+                                for p_, q_ in ((c['lhs'], c['rhs']), (c['rhs'], c['lhs'])):
+                                    if field_of_x(p_) and facts.is_null(strip_all_casts(fn.resolve(q_))):
+                                        return (c['op'] == '==') == (pol != neg)
+                            if field_of_x(c):
+                                return pol == neg            # `!X->F` true, or `X->F` false
+                            return False
+                        if pr.control_dependent(fn, ev, fpos[0], nulltest):
+                            hits = []
+                    n += 1
+                    rep.add('R-container', '%s:%s->%s@%s:free@%s' % (fn.name, X, F, st.get('l'), fr.get('l')), VIOLATED if hits else HOLDS,
+                            '%s:%s' % (fn.file, fr.get('l')),
+                            **({'what': '%s stores a counted reference into %s->%s (line %s) and frees %s (line %s) on a path that has not released it through %s->%s%s' % (
+                                fn.name, X, F, st.get('l'), X, fr.get('l'), X, F, (' or ' + vname) if vname else '')} if hits else {}))
+    if n < 5:
+        raise facts.AnalysisBroken('R-container found only %d container sites' % n)
+
+
 def run(tier='quick', repo=None):
     repo = repo or facts.REPO
     rep = Report(PROP, tier)
@@ -264,6 +375,7 @@ def run(tier='quick', repo=None):
         rep.add('R-atomic', inst, VIOLATED, '%s:%s' % (fn.file, n.get('l')),
                 what='object of type %s accessed directly (not through uatomic_*)' % n.get('t'))
     rep.add('R-atomic', 'all-units', HOLDS if not bad else VIOLATED, None, occurrences=nocc, **({} if not bad else {'what': '%d direct accesses' % len(bad)}))
+    check_container(rep, prog)
     check_race(rep, repo, tier)
     rep.assumptions = ['the HAVE_ATOMIC_OPS branch of uatomic.h is the one compiled (config.h of the tree)',
                        'callers respect "a release matches an acquisition made while holding a reference" (not decided)']
